@@ -20,6 +20,13 @@ Tie     : extracted facts (handler lookup first, recursive dump calls forwarding
           harness/jcentries.py): direct, jsonrpc.dump/dumps, client call / keyword / notify / MultiCall over loop and real
           transports, the reply of every server entry point to 2.0-form, 1.0-form-on-2.0 (Config.copy), batch and 1.0-server
           requests — the same monitor on probe objects that define a method and an ignore list under every candidate name.
+Histories: ONE Config object over time (harness/jchistory.py, model lean/JRV/Model/ConfigHistory.lean, component `cfghistory`):
+          dump, then register / replace / remove handlers, empty or replace the table, store other names, switch use_jsonclass,
+          touch Config.classes, dump again (jsonclass.dump and the value part of jsonrpc.dump; the same object or another one) —
+          every statement against the model; on every dump the monitor below with the configuration as it is at that moment, and
+          the dump of the same value by a FRESH Config object with the same settings must give the same outcome
+          (`history-dependent`).  Long-lived clients and servers built with the object are driven twice or three times with the
+          object changed in between (`_path_histories`).  Histogram keys `history/…`, `path-history:…`.
 Monitor : written from the property statement, evaluated on the real output by walking the real object graph and
           the dump in parallel (`Monitor`): a node whose exact type has a non-None handler is replaced by that
           handler's return value (the handlers echo the names and the ignore list they receive); a node of any
@@ -56,6 +63,7 @@ import gen
 import impl
 import jcentries
 import jcenv
+import jchistory
 import pyval
 
 import jsonrpclib.jsonclass as JC
@@ -72,6 +80,10 @@ REQUIRED_THEOREMS = [
     "C20_unsupported_not_compared", "C20_hostile_known_raises", "C20_hostile_known_empty_list",
     "C20_copy_fields", "C20_copy_eq", "C20_compat_fields", "C20_compat_dumpCfg", "C20_compat_same_dump",
     "C20_copy_table_complete", "C20_gen_fieldFilterOrder", "C20_gen_configInitFields", "C20_gen_configCopyFields",
+    "C20_history_reads_current_state", "C20_history_dumps_inert", "C20_history_handler_in_force", "C20_history_method_in_force",
+    "C20_history_ignore_attribute_in_force", "C20_history_use_jsonclass_in_force", "C20_history_table_extensional",
+    "C20_history_dump_fresh", "C20_history_entry_after_store", "C20_history_late_handler_used", "C20_history_late_handler_known",
+    "C20_history_removed_handler_unknown",
 ]
 
 METHOD_NAMES = ["_serialize", "to_json", "dump_me"]
@@ -640,6 +652,7 @@ def run(ctx):
     per_env = ctx.budget(40, 110)
     lines = []
     expect = []
+    hist_cases = []
     for e in range(n_envs):
         tag = "t%d" % e
         rng = ctx.rng
@@ -648,15 +661,19 @@ def run(ctx):
         env = gen_env(ctx, rng, tag, cfg_names, clean).install()
         try:
             _run_env(ctx, env, cfg_names, clean, per_env, lines, expect)
+            _histories(ctx, env, tag, cfg_names, clean, hist_cases)
         finally:
             env.uninstall()
     _type_battery(ctx, lines, expect)
+    _path_histories(ctx)
     # the paths on which a configuration reaches jsonclass.dump, and Config.copy itself (run first: separate random stream)
     copy_cases = _config_copy(ctx)
     _config_paths(ctx)
-    outs = ctx.lean(lines + [c[0] for c in copy_cases] + ["jctables"])
+    outs = ctx.lean(lines + [c[0] for c in copy_cases] + [h[0] for h in hist_cases] + ["jctables"])
     import props.c07 as c07
     c07.check_type_tables(ctx, outs.pop())
+    _check_histories(ctx, hist_cases, outs[len(lines) + len(copy_cases):])
+    outs = outs[:len(lines) + len(copy_cases)]
     for (ln, want, case), mo in zip(copy_cases, outs[len(lines):]):
         got = [pyval.canon(part) for part in mo.split(" | ")][:len(want)] if " | " in mo else [mo]
         if got != want:
@@ -839,6 +856,193 @@ def _has_ignore_lists(v, env, ia, depth=0):
             return True
         return any(_has_ignore_lists(x, env, ia, depth + 1) for _n, x in env.stored(v))
     return False
+
+
+# ---- one Config object over time ---------------------------------------------------------------------------------------------
+
+def _histories(ctx, env, tag, cfg_names, clean, hist_cases):
+    """Histories on one real Config object (harness/jchistory.py): monitors now, the model lines are answered later."""
+    import props.c07 as c07
+    rng = ctx.derive_rng("history/" + tag)
+    lean_env = env.enc(env.lean_classes())
+    for i in range(ctx.budget(6, 14)):
+        hist = jchistory.gen_history(rng, gen, env, cfg_names, clean)
+        try:
+            case = jchistory.case_of(env, hist, _specs_plain(env))
+            line = jchistory.lean_line(env, hist, lean_env)
+        except pyval.Unencodable:
+            continue
+        results = jchistory.run_history(env, hist)
+        flags = hist["flags"]
+        loose_err = flags["raising"] or not clean or flags["hostile"] or flags["snan"]
+        for n, k, d, canon, hits, positions in results:
+            for key, detail in hits[:2]:
+                ctx.violate(case, detail, key=key)
+            if k == "err" and clean and not loose_err:
+                ctx.violate(case, "statement %d of the history: dump raised %s: %s on a program without failure causes"
+                            % (n, type(d).__name__, d), key="dump-raises@history:" + type(d).__name__)
+            ctx.count(nontrivial_key=("history", jchistory.history_kind(dict(hist, ops=hist["ops"][:n])), tuple(sorted(positions)),
+                                      k if k == "ok" else type(d).__name__) if n > 0 else None,
+                      kind="history/%s/%s" % (hist["ops"][n][0], k))
+        for kind in set(op[0] for op in hist["ops"]) - set(["dump", "rpcdump"]):
+            ctx.hist["history/with-store:" + kind] += 1
+        ctx.hist["history/dumps:%d" % len(results)] += 1
+        for op in hist["ops"]:
+            ctx.hist["history/statement:" + op[0]] += 1
+        # a handler registered / removed after the first dump for a type that a later value holds in a FIELD
+        late = set(op[1] for op in hist["ops"][1:] if op[0] in ("seth", "delh"))
+        if late:
+            held = set()
+            for v in hist["values"]:
+                for node in _walk(v, env):
+                    if type(node) in env.ids and env.by_id[env.ids[type(node)]]["kind"] == "bean" and not env.by_id[env.ids[type(node)]].get("external"):
+                        held.update(env.type_tag(type(x)) for _n, x in env.stored(node))
+            ctx.hist["history/late-handler-for-%s" % ("a-field-type" if late & held else "another-type")] += 1
+        model_ok = not any(direct_bytes_field(v, env) or c07.has_prim_member(v, env) for v in hist["values"])
+        if model_ok:
+            hist_cases.append((line, [(n, canon, loose_err and k == "err", c07.has_multiset(hist["values"][hist["ops"][n][-1]], env))
+                                      for n, k, d, canon, hits, positions in results], case))
+
+
+def _check_histories(ctx, hist_cases, outs):
+    import props.c07 as c07
+    unmodelled = 0
+    for (line, expected, case), mo in zip(hist_cases, outs):
+        parts = mo.split(" | ")
+        if len(parts) != len(case["ops"]):
+            ctx.disagree(line[-600:], "%d statements" % len(case["ops"]), mo[:300], component="cfghistory")
+            continue
+        for n, canon, loose_err, multiset in expected:
+            part = parts[n]
+            if "err Unmodelled" in part or canon is None:
+                unmodelled += 1
+                continue
+            cm = impl.canon_model_line(part, keep_arg=())
+            exp = canon
+            if multiset:
+                cm, exp = c07.loose(cm), c07.loose(exp)
+            if loose_err and cm.startswith("err "):
+                cm = exp
+            if cm != exp:
+                ctx.disagree("statement %d of %s" % (n, line[-700:]), exp[:500], cm[:500], component="cfghistory")
+        ctx.traces_validated += 1
+    ctx.extra["unmodelled_history_dumps"] = unmodelled
+
+
+HISTORY_PHASES = [(("_serialize", "_ignore"), "none"), (("_to_json", "_skip"), "tuple"), (("dump_me", "hidden_"), "date+str"),
+                  (("_serialize", "hidden_"), "tuple"), (("_to_json", "_ignore"), "none"), (("dump_me", "_skip"), "date+str")]
+
+
+def _set_probe_cfg(cfg, names, hkind):
+    """Brings a long-lived configuration object to these settings, in place."""
+    cfg.serialize_method, cfg.ignore_attribute = names
+    donor = probe_cfg(names, hkind)
+    cfg.serialize_handlers.clear()
+    cfg.serialize_handlers.update(donor.serialize_handlers)
+
+
+def path_history_verdicts(path, phases):
+    """One long-lived client / server entry constructed with one Config object; between two requests the object is brought to
+    the next phase (names, handler table).  -> [(key, detail)] of the statement's monitor on what leaves the library each time."""
+    parts = path.split(":")
+    version = 1.0 if parts[0] == "server" and parts[2].endswith("1.0-server") else 2.0
+    cfg = probe_cfg(phases[0][0], phases[0][1], version)
+    hits = []
+    current = {}
+
+    def judge(phase_no, names, hkind, pairs):
+        for obj, o in pairs:
+            mon = Monitor(current["penv"], cfg, None, None, None)
+            try:
+                mon.check(obj, o)
+            except Exception as ex:  # noqa: BLE001
+                mon.hit("monitor-error", "value", "%s: %s" % (type(ex).__name__, ex))
+            how = "the first request (names %r, handlers %s)" % (names, hkind) if phase_no == 0 else \
+                "request %d on the same long-lived object, after its configuration was changed in place to names %r, handlers %s " \
+                "(before: %s)" % (phase_no + 1, names, hkind, phases[:phase_no])
+            hits.extend((key + "@history:" + ":".join(parts[::2]), "%s, %s: %s" % (path, how, d)) for key, d in mon.hits)
+
+    def fresh_value(names):
+        Account, Plain = make_probes(*names)
+        current["penv"] = ProbeEnv([(Account, "serial"), (Plain, "bean")])
+        current["v"] = probe_value(Account, Plain)
+        return current["v"]
+
+    def run():
+        if parts[0] == "client":
+            kind, mode = parts[1], parts[2]
+
+            def peer(body):
+                docs = json.loads(body)
+                reps = [{"jsonrpc": "2.0", "id": d["id"], "result": None} for d in (docs if isinstance(docs, list) else [docs])
+                        if d.get("id") is not None]
+                return "" if not reps else json.dumps(reps if isinstance(docs, list) else reps[0])
+
+            client = jcentries.Client(kind, cfg, peer)
+            try:
+                for no, (names, hkind) in enumerate(phases):
+                    if no:
+                        _set_probe_cfg(cfg, names, hkind)
+                    v = fresh_value(names)
+                    if mode == "call":
+                        client.proxy.m(v)
+                    elif mode == "keyword":
+                        client.proxy.m(x=v)
+                    elif mode == "notify":
+                        client.proxy._notify.m(v)
+                    else:
+                        mc = impl.jsonrpclib.jsonrpc.MultiCall(client.proxy, config=cfg)
+                        mc._notify.other(1)
+                        mc.m(v)
+                        list(mc())
+                    doc = json.loads(client.sent[-1])
+                    doc = doc[-1] if isinstance(doc, list) else doc
+                    judge(no, names, hkind, [({"x": v} if mode == "keyword" else (v,), doc["params"])])
+            finally:
+                client.close()
+        else:
+            kind, form = parts[1], parts[2]
+            req = {"method": "get", "id": 3, "params": []}
+            if form in ("2.0", "batch", "2.0-on-1.0-server"):
+                req["jsonrpc"] = "2.0"
+            if form == "batch":
+                req = [{"method": "get", "id": 4, "params": []}, req]
+            entry = jcentries.ServerEntry(kind, cfg, {"get": lambda: current["v"]})
+            try:
+                for no, (names, hkind) in enumerate(phases):
+                    if no:
+                        _set_probe_cfg(cfg, names, hkind)
+                    v = fresh_value(names)
+                    reply = json.loads(entry.send(json.dumps(req)))
+                    pairs = []
+                    for doc in (reply if isinstance(reply, list) else [reply]):
+                        if "result" not in doc or doc.get("error"):
+                            raise RuntimeError("the server answered %r" % (doc,))
+                        pairs.append((v, doc["result"]))
+                    judge(no, names, hkind, pairs)
+            finally:
+                entry.close()
+
+    k, out = impl.outcome(run)
+    if k == "err":
+        hits.append(("path-failed@history:" + parts[0], "%s: %s: %s" % (path, type(out).__name__, out)))
+    return hits
+
+
+def _path_histories(ctx):
+    rng = ctx.derive_rng("path-histories")
+    for path, n in all_paths(ctx.thorough, rng):
+        if ":" not in path:
+            continue  # the function paths take the configuration per call: covered by `_histories`
+        in_process = n >= 9
+        for _ in range(2 if in_process else 1):
+            phases = rng.sample(HISTORY_PHASES, 3 if in_process else 2)
+            hits = path_history_verdicts(path, phases)
+            case = {"side": "path-history", "path": path, "phases": [[list(nm), hk] for nm, hk in phases]}
+            for key, detail in hits[:2]:
+                ctx.violate(case, detail, key=key)
+            ctx.count(nontrivial_key=("path-history", path, tuple(hk for _nm, hk in phases)), kind="path-history/%s" % path.split(":")[0])
+            ctx.hist["path-history:" + ":".join(path.split(":")[::2])] += 1
 
 
 # ---- every type of / outside the supported tuples, as a field value ---------------------------------------------------------
@@ -1310,6 +1514,67 @@ def _specs_plain(env):
     return out
 
 
+def _decoder(env):
+    def mk(cls, fields):
+        fd = dict(fields)
+        if cls == "datetime.timedelta":
+            return [d for d in DATES if type(d) is datetime.timedelta and str(d) == fd["value"]][0]
+        if cls in EXT_TYPES:
+            return EXT_TYPES[cls].fromisoformat(fd["value"])
+        if cls == "bytes":
+            return bytes.fromhex(fd["hex"])
+        if cls in EXOTIC_MAKE:
+            return EXOTIC_MAKE[cls]()
+        s = env.by_id[cls]
+        c = env.cls[cls]
+        if s["kind"] == "decimal":
+            return c(fd["str"])
+        if s["kind"] == "enum":
+            try:
+                return c[fd["name"]]
+            except KeyError:
+                return c(fd["value"])
+        inst = c.__new__(c)
+        for n, x in fields:
+            setattr(inst, n, x)
+        return inst
+    return mk
+
+
+def _replay_history(case):
+    specs = pyval.from_tree(pyval.parse(case["specs_enc"]))
+    for s in specs:
+        for key in ("own", "members"):
+            if key in s:
+                s[key] = [tuple(x) for x in s[key]]
+    env = Env20(EXTERNALS + specs).install()
+    try:
+        mk = _decoder(env)
+        hist = {"names": case["names"], "handlers": case["handlers"], "use_jsonclass": case["use_jsonclass"],
+                "values": [pyval.from_tree(pyval.parse(t), mk) for t in case["values_enc"]],
+                "ops": pyval.from_tree(pyval.parse(case["ops_enc"]))}
+        print("replaying a history on one Config(serialize_method=%r, ignore_attribute=%r), handlers %s:" % (
+            hist["names"][0], hist["names"][1], hist["handlers"]))
+        for i, v in enumerate(hist["values"]):
+            print("  value #%d = %s" % (i, repr(v)[:300]))
+        found = 0
+        results = dict((r[0], r) for r in jchistory.run_history(env, hist))
+        for n, op in enumerate(hist["ops"]):
+            if n in results:
+                _n, k, d, _c, hits, _p = results[n]
+                print("  %2d. %s -> %s %s" % (n, jchistory.describe_ops([op]), k, repr(d)[:400]))
+                for key, detail in hits:
+                    print("VIOLATION reproduced [%s]: %s" % (key, detail))
+                    found += 1
+            else:
+                print("  %2d. %s" % (n, jchistory.describe_ops([op])))
+        if not found:
+            print("no violation")
+        return 1 if found else 0
+    finally:
+        env.uninstall()
+
+
 def replay(payload):
     case = payload.get("case") or {}
     if case.get("side") == "path":
@@ -1322,6 +1587,17 @@ def replay(payload):
         if not hits:
             print("no violation")
         return 1 if hits else 0
+    if case.get("side") == "path-history":
+        phases = [(tuple(nm), hk) for nm, hk in case["phases"]]
+        print("replaying the long-lived entry %s; its Config object goes through the settings %s" % (case["path"], phases))
+        hits = path_history_verdicts(case["path"], phases)
+        for key, detail in hits:
+            print("VIOLATION reproduced [%s]: %s" % (key, detail))
+        if not hits:
+            print("no violation")
+        return 1 if hits else 0
+    if case.get("side") == "history":
+        return _replay_history(case)
     if case.get("side") == "copy":
         print("replaying Config.copy() on a configuration with the attributes", case["before"])
         hits = copy_verdicts(case["before"])
